@@ -18,7 +18,7 @@ if ! cargo +nightly fuzz build --fuzz-dir $V/fuzz "$t" > "$V/work/build-$t.log" 
 fi
 # tape length (u32 words) of each generator: the input is the tape, so max_len = 4 * words
 case "$t" in
-  fuzz_c02) words=280;; fuzz_c03) words=320;; fuzz_c04) words=260;; fuzz_c05) words=96;; fuzz_c06) words=900;;
+  fuzz_c02) words=280;; fuzz_c03) words=320;; fuzz_c04) words=260;; fuzz_c05) words=96;; fuzz_c06) words=1200;;
   fuzz_c07) words=1600;; fuzz_c08) words=900;; fuzz_c09) words=800;; fuzz_c10) words=2000;; fuzz_c11) words=420;;
   fuzz_c12) words=1800;; fuzz_c13) words=1600;; fuzz_c14) words=3000;; fuzz_c15) words=1400;; fuzz_c16) words=400;;
   fuzz_c17) words=1200;; fuzz_c18) words=1600;; fuzz_c19) words=1100;; *) words=400;;
